@@ -470,6 +470,7 @@ func (i *interpreter) runPath(s seed) (res PathResult) {
 					return
 				}
 			}
+			msg += " at " + i.lastPanicAt
 			res = PathResult{Status: "panic", Msg: msg}
 			i.violations = append(i.violations, Violation{ID: "panic", Msg: msg, Tape: i.tape(), Notes: i.renderNotes(i.model), Harness: i.ex.cfg.Harness, PathLen: len(i.decisions)})
 		}
